@@ -301,7 +301,13 @@ def known_witnesses(ctx, pp):
         ctx.fail_input("TypeError escapes parse_string", {"program": "f = pyparsing_common.mixed_integer.copy(); match_previous_literal(f); SkipTo(f)",
                        "input": "x 1"}, "no TypeError", f"TypeError: {ex}", theorem="C06 statement (oracle)",
                        signature="call_during_try_spreads")
-    ctx.count_cases("known-finding-witnesses", 3)
+    # regression (fixed): SkipTo.ignore() returned None, so composites built by chaining received None
+    chained = pp.SkipTo(pp.Literal("a")).ignore(pp.Literal("#"))
+    if chained is None:
+        ctx.fail_input("ignore() does not return the expression (chained composites receive None and raise AttributeError when parsed)",
+                       {"program": "IndentedBlock(SkipTo(Literal('a')).ignore(Literal('#')))", "input": "ab"},
+                       "the SkipTo expression", None, theorem="C06 statement (oracle)", signature="skipto_ignore_returns_none")
+    ctx.count_cases("known-finding-witnesses", 4)
 
 
 def run(ctx):
